@@ -92,6 +92,33 @@ func runC01(res *Result, tier string, seed int64, replay string) {
 	fixtures := loadFixtures()
 	if replay != "" {
 		in := replayRaw(replay)
+		if names, ok := in["blocks"].([]interface{}); ok && len(names) > 0 {
+			// a block sequence: "fixture#index" names
+			var sq []refBlock
+			for _, n := range names {
+				p := strings.SplitN(fmt.Sprint(n), "#", 2)
+				if len(p) != 2 {
+					continue
+				}
+				var idx int
+				fmt.Sscanf(p[1], "%d", &idx)
+				for _, f := range fixtures {
+					if f.Name != p[0] {
+						continue
+					}
+					if _, srcs, ok := splitSource(f.MJML); ok && idx < len(srcs) {
+						b := refBlock{fixture: f.Name, idx: idx, src: srcs[idx], kind: blockKind(srcs[idx]), ref: f.HTML}
+						b.solo, _ = renderPlain(composeDoc([]refBlock{b}))
+						sq = append(sq, b)
+					}
+				}
+			}
+			if len(sq) > 0 {
+				real, _ := renderPlain(composeDoc(sq))
+				c01Sequence(res, drv, sq, real)
+			}
+			return
+		}
 		if name, ok := in["fixture"].(string); ok {
 			for _, f := range fixtures {
 				if f.Name == name {
